@@ -10,8 +10,9 @@ EXTENDS Wrappers, Json, CSV, IOUtils
 
 CONSTANTS Names, BuildLen, WrapLen, Kind
 
-VARIABLES st, hist, w, wh, last
-vars == <<st, hist, w, wh, last>>
+VARIABLES st, hist, w, wh, last,
+          wx     \* wrapper state (FailFS: the fault plan and the consultation counters)
+vars == <<st, hist, w, wh, last, wx>>
 
 C0 == [op |-> "", v |-> 0, p |-> NoPath, q |-> NoPath, flag |-> <<>>, perm |-> 0, data |-> <<>>,
        n |-> 0, off |-> 0, wh |-> 0, h |-> 0, uid |-> 0, gid |-> 0]
@@ -62,40 +63,63 @@ WrapCalls(s) ==
 Impl == IF "VERIF_IMPL" \in DOMAIN IOEnv THEN IOEnv.VERIF_IMPL ELSE "memfs"
 WKind == IF Kind = "rofs-sym" THEN "rofs" ELSE Kind
 
+\* FailFS fault plans: the first or second consultation of a primitive fails
+PlanFns == {"OpenFile", "FileWrite", "FileClose", "FileRead", "FileStat", "FileReadDir", "ReadFile", "ReadDir", "Mkdir",
+            "MkdirTemp", "MkdirAll", "Remove", "RemoveAll", "Rename", "Link", "Symlink", "Truncate", "Chmod", "Chtimes",
+            "Stat", "Lstat", "Chdir", "CreateTemp", "FileSeek", "FileTruncate", "FileSync", "FileChmod", "FileWriteAt",
+            "FileReadAt", "FileReaddirnames"}
+Plans == IF WKind = "failfs" THEN {NoPlan} \cup {[fn |-> f, k |-> k] : f \in PlanFns, k \in 1..2} ELSE {NoPlan}
+WrapName == IF wx.plan.fn = "none" THEN w ELSE w \o ":" \o wx.plan.fn \o ":" \o ToString(wx.plan.k)
+PlanFired == wx.plan.fn # "none" /\ CountOf(wx.fc, wx.plan.fn) >= wx.plan.k
+
 EdgeFile == IF "VERIF_EDGES" \in DOMAIN IOEnv THEN IOEnv.VERIF_EDGES ELSE ""
 Emit(rec) == IF EdgeFile = "" THEN TRUE ELSE CSVWrite("%1$s", <<ToJson(rec)>>, EdgeFile)
 
-Init == st = InitSt /\ hist = <<>> /\ w = "none" /\ wh = <<>> /\ last = [call |-> C0, res |-> R0]
+Init == st = InitSt /\ hist = <<>> /\ w = "none" /\ wh = <<>> /\ last = [call |-> C0, res |-> R0] /\ wx = X0
 
 Build ==
     /\ w = "none" /\ Len(hist) < BuildLen
     /\ \E c \in BuildCalls : LET o == Apply(st, c) IN
           /\ o.res.err = "ok"
-          /\ st' = o.st /\ hist' = Append(hist, c) /\ last' = [call |-> c, res |-> o.res] /\ UNCHANGED <<w, wh>>
+          /\ st' = o.st /\ hist' = Append(hist, c) /\ last' = [call |-> c, res |-> o.res] /\ UNCHANGED <<w, wh, wx>>
 
-Wrap == w = "none" /\ w' = WKind /\ UNCHANGED <<st, hist, wh, last>>
+Wrap == w = "none" /\ w' = WKind /\ (\E p \in Plans : wx' = [plan |-> p, fc |-> EmptyFn]) /\ UNCHANGED <<st, hist, wh, last>>
 
 \* the strict outcome through the wrapper (the first admissible error of a refusal is the canonical one)
 Through(s, c) ==
-    LET outs == {o \in WOutcomes(w, "osfs", s, c) : o.kf = ""}
+    LET outs == {o \in WOutcomes(w, "osfs", s, c, wx) : o.kf = ""}
         pick == IF \E o \in outs : o.res.err = "EACCES" THEN CHOOSE o \in outs : o.res.err = "EACCES"
+                ELSE IF \E o \in outs : o.res.err = "EINJECTED" THEN CHOOSE o \in outs : o.res.err = "EINJECTED"
                 ELSE CHOOSE o \in outs : TRUE IN
     pick
 
 Call ==
-    /\ w # "none" /\ Len(wh) < WrapLen
-    /\ \E c \in WrapCalls(st) : LET o == Through(st, c) IN
-          /\ st' = o.st /\ wh' = Append(wh, c) /\ last' = [call |-> c, res |-> o.res] /\ UNCHANGED <<hist, w>>
-          /\ Emit([hist |-> hist, wrap |-> w, wh |-> wh, call |-> c, res |-> o.res, pre |-> Proj(st),
-                   post |-> Proj(o.st), cwd |-> CwdPath(o.st)])
+    /\ w # "none" /\ Len(wh) < WrapLen /\ ~PlanFired
+    /\ \E c \in WrapCalls(st) : LET o == Through(st, c)
+                                      rp == Res(st, c.p, FALSE) IN
+          \* removing or moving the working directory (or an ancestor of it) is outside the universe
+          /\ ~(c.op \in {"remove", "removeall", "rename"} /\ rp.err = "ok" /\ rp.id # Root /\ rp.id \in Range(st.cwd))
+          \* under a fault plan only calls that consult the planned primitive are of interest
+          /\ (wx.plan.fn # "none" => \E i \in DOMAIN o.cons : o.cons[i] = wx.plan.fn)
+          /\ st' = o.st /\ wh' = Append(wh, c) /\ last' = [call |-> c, res |-> o.res] /\ wx' = o.x /\ UNCHANGED <<hist, w>>
+          /\ Emit([hist |-> hist, wrap |-> WrapName, wh |-> wh, call |-> c, res |-> o.res, pre |-> Proj(st),
+                   post |-> Proj(o.st), cwd |-> CwdPath(o.st), cons |-> o.cons])
 
 Next == Build \/ Wrap \/ Call
 Spec == Init /\ [][Next]_vars
-View == <<Proj(st), st.cwdn, HView(st), w, Len(hist), Len(wh)>>
+View == <<Proj(st), st.cwdn, HView(st), w, wx, Len(hist), Len(wh)>>
 
 \* C09 on the specification: nothing done through a read-only wrapper changes the base tree
-RoNeverChangesBase == [][(w = "rofs" /\ w' = "rofs") => Proj(st') = Proj(st)]_vars
+RoNeverChangesBase == [][(w \in {"rofs", "failro"} /\ w' = w) => Proj(st') = Proj(st)]_vars
 \* ... and every mutating call is refused
-RoRefusesMutators == [][(w = "rofs" /\ w' = "rofs" /\ last'.call.op \in RoMutatingNs \cup RoMutatingH)
+RoRefusesMutators == [][(w \in {"rofs", "failro"} /\ w' = w /\ last'.call.op \in RoMutatingNs \cup RoMutatingH)
                             => last'.res.err \in PermErrs \cup {"CLOSED", "NOHANDLE"}]_vars
+\* C12 on the specification: an injected failure is returned as such, and without a plan FailFS is the base
+Composites == {"readfile", "readdir", "writefile", "create", "mkdirtemp", "openclose", "createtemp", "subwrite", "submkdir"}
+InjectedIsReturned ==
+    [][(w = "failfs" /\ w' = w /\ ~PlanFired /\ wx'.plan.fn # "none" /\ CountOf(wx'.fc, wx'.plan.fn) >= wx'.plan.k
+        \* the driver ignores the Close of CreateTemp's file
+        /\ ~(wx.plan.fn = "FileClose" /\ last'.call.op = "createtemp"))
+            => IF last'.call.op \in Composites THEN last'.res.err # "ok"       \* a composite fails when a primitive does
+               ELSE last'.res.err = "EINJECTED"]_vars                          \* exactly the injected error
 =============================================================================
